@@ -181,7 +181,8 @@ pub fn abstract_model(m: &Model, it: &mut Interner, bad: &mut Vec<String>) -> Va
                 "tx": exact_angle(w.geometry.tilt).map(|a| json!([a.0, a.1])).unwrap_or(json!([0, 0])),
                 "ax": exact_angle(w.geometry.azimuth).map(|a| json!([a.0, a.1])).unwrap_or(json!([0, 0])),
                 "angok": exact_angle(w.geometry.tilt).is_some() && exact_angle(w.geometry.azimuth).is_some(),
-                "area": qv(w.area(), 1e4, "wall.area", bad)})
+                // area by the verifier's own shoelace sum over the polygon (not the code's area function)
+                "area": qv(shoelace(&w.geometry.polygon), 1e4, "wall.area", bad)})
         })
         .collect();
     o.insert("walls".into(), json!(walls));
@@ -190,7 +191,7 @@ pub fn abstract_model(m: &Model, it: &mut Interner, bad: &mut Vec<String>) -> Va
         .iter()
         .map(|w| {
             json!({"id": it.id(w.id), "wall": it.id(w.wall), "cons": it.id(w.cons),
-                "area": qv(w.area(), 1e4, "window.area", bad)})
+                "area": qv(((w.geometry.width as f64) * (w.geometry.height as f64)) as f32, 1e4, "window.area", bad)})
         })
         .collect();
     o.insert("windows".into(), json!(windows));
@@ -277,6 +278,17 @@ fn gf(v: &Value, k: &str, scale: f64, d: f32) -> f32 {
 }
 fn gof(v: &Value, k: &str, scale: f64) -> Option<f32> {
     v.get(k).and_then(|x| x.as_i64()).and_then(|i| if i < 0 { None } else { Some((i as f64 / scale) as f32) })
+}
+
+/// area of a polygon (shoelace formula, f64)
+pub fn shoelace(poly: &[bemodel::Point2]) -> f32 {
+    let n = poly.len();
+    let mut a2 = 0.0f64;
+    for i in 0..n {
+        let (p, q) = (poly[i], poly[(i + 1) % n]);
+        a2 += (p.x as f64) * (q.y as f64) - (q.x as f64) * (p.y as f64);
+    }
+    (a2.abs() / 2.0) as f32
 }
 
 /// floor and fraction (units of 2^-23, truncated) of an angle; None when it is not a number of moderate size
